@@ -6,7 +6,7 @@
     circular arcs.  The theorems below are stated for one piece starting at an arbitrary point, which
     is how the chain evaluates every piece (C06_chain). *)
 From Coq Require Import Reals Lra List.
-From WB Require Import Num Base RNum SlabSpec SlabSpecProofs.
+From WB Require Import Num Base RNum Props World Kernels Bezier SlabSpec SlabSpecProofs SlabModel SlabRefine.
 Import ListNotations.
 Local Open Scope R_scope.
 
@@ -79,9 +79,25 @@ Section C06.
     intros ps u v r H. unfold planar_distance in H.
     destruct (chain_best_is_some_piece sp ps _ _ _ _ _ _ _ _ H) as [H'|H']; [discriminate|]. exact H'.
   Qed.
+
+  (** refinement, straight pieces: in exact arithmetic the straight-piece computation of the model of
+      distance_point_from_curved_planes (local frame with the second axis pointing up, piece starting at
+      (bx, by), check point at arclength a and normal offset d) returns the specification's end point,
+      admissibility, distance and arclength.  (Arcs: compared executably on every run, not proved.) *)
+  Theorem C06_model_refines_spec_straight : forall sr bx by_ L th a d, 0 < L ->
+    let cp := (bx + a * cos th - d * sin th, by_ - (a * sin th + d * cos th)) in
+    let p := {| pc_len := L; pc_top := th; pc_bot := th |} in
+    let e := @straight_eval R N bx (sr - by_) p (fst cp) (sr - snd cp) in
+    fst (@straight_piece R N sr (bx, by_) L th cp) = (pe_ex e, sr - pe_ey e) /\
+    match snd (@straight_piece R N sr (bx, by_) L th cp) with
+    | Some (dist, along, _) => pe_ok e = true /\ dist = pe_dist e /\ along = pe_along e
+    | None => pe_ok e = false
+    end.
+  Proof. intros sr bx by_ L th a d HL. exact (straight_piece_refines_spec sp sr bx by_ L th a d HL). Qed.
 End C06.
 
 Print Assumptions C06_straight.
 Print Assumptions C06_arc_shape.
 Print Assumptions C06_arc.
 Print Assumptions C06_chain.
+Print Assumptions C06_model_refines_spec_straight.
